@@ -22,6 +22,8 @@ def arms():
                     continue
                 if st == "push" and len(s) > 2:
                     continue
+                if st == "assign" and m == 0 and s[-1] == "v":
+                    continue   # measured: a NEW variable under every scope with a volatile context on top: 18 GB after 20 min, no answer
                 if st == "attrs" and (m == 0 or s[m.bit_length() - 1] != "r"):
                     continue   # the attrs step addresses the visible entry through Scope::Global: it must be in a regular context
                 if st == "env" and m == 0:
